@@ -64,7 +64,7 @@ def validate_trace(trace, wd, timeout=900):
     if os.path.exists(out):
         os.remove(out)
     rc, log, dt = tlc(["-workers", "1", "-config", "Trace.cfg", "Trace.tla"],
-                      {"TRACE": trace, "OUT": out, "XMX": "3g"}, os.path.join(wd, "md_" + os.path.basename(trace)), timeout)
+                      {"TRACE": trace, "OUT": out, "XMX": "3g", "DRIFT": "1"}, os.path.join(wd, "md_" + os.path.basename(trace)), timeout)
     if rc == 124:
         raise ToolError("TLC timeout on %s" % trace)
     if not os.path.exists(out) or "Model checking completed. No error has been found." not in log:
@@ -158,6 +158,50 @@ def match_known(dev, known):
     return None
 
 
+def record(plan, tier, seed, bins, wd, scale, tag):
+    """run the generators of the plan (sizes multiplied by `scale`) and return [(trace file, job)]"""
+    gens = []
+    for j in plan.get("traces", []):
+        n = (j["n"][0] if tier == "quick" else j["n"][1]) * scale
+        k = j["slices"][0] if tier == "quick" else j["slices"][1]
+        for s in range(k):
+            out = os.path.join(wd, "traces", "%s%s_%s_%d.ndjson" % (tag, j["family"], j["variant"], s))
+            gens.append((bins[j["variant"]], j, n, seed * 1000 + s + (500 if tag else 0), out))
+
+    def gen(g):
+        b, j, n, sd, out = g
+        rc, o = sh([b, "gen", j["family"], str(n), out], env={"VERIF_SEED": str(sd), "VERIF_SLICE": str(sd % 1000 % 500)}, timeout=1800)
+        if rc != 0:
+            raise ToolError("generator %s failed: %s" % (j["family"], o[-800:]))
+        return (out, j)
+
+    with cf.ThreadPoolExecutor(JOBS) as ex:
+        slices = list(ex.map(gen, gens))
+    # C11-style merged traces: interleave the groups of two configurations (text only)
+    for m in plan.get("merge", []):
+        merged = []
+        by = collections.defaultdict(dict)
+        for (f, j) in slices:
+            if j["family"] == m["family"]:
+                by[os.path.basename(f).rsplit("_", 1)[1]][j["variant"]] = f
+        for sl, d in by.items():
+            out = os.path.join(wd, "traces", "%s%s_merged_%s" % (tag, m["family"], sl))
+            merge_groups([d[v] for v in m["variants"]], out)
+            merged.append((out, {"family": m["family"] + "_merged", "variant": "+".join(m["variants"])}))
+        slices = [(f, j) for (f, j) in slices if j["family"] != m["family"]] + merged
+    return slices
+
+
+def validate_all(slices, wd, plan):
+    results = []
+    with cf.ThreadPoolExecutor(JOBS) as ex:
+        futs = {ex.submit(validate_trace, f, wd, plan.get("trace_timeout", 1500)): (f, j) for (f, j) in slices}
+        for fu in cf.as_completed(futs):
+            f, j = futs[fu]
+            results.append((f, j, fu.result()))
+    return results
+
+
 def main():
     if len(sys.argv) < 2:
         print(__doc__)
@@ -218,43 +262,20 @@ def run(prop, plan, tier, seed, replay, wd, known, t0):
             raise ToolError("harness replay failed: " + o[-500:])
         slices.append((out, {"family": "replay", "variant": variant}))
     else:
-        gens = []
-        for j in plan.get("traces", []):
-            n = j["n"][0] if tier == "quick" else j["n"][1]
-            k = j["slices"][0] if tier == "quick" else j["slices"][1]
-            for s in range(k):
-                out = os.path.join(wd, "traces", "%s_%s_%d.ndjson" % (j["family"], j["variant"], s))
-                gens.append((bins[j["variant"]], j, n, seed * 1000 + s, out))
-
-        def gen(g):
-            b, j, n, sd, out = g
-            rc, o = sh([b, "gen", j["family"], str(n), out], env={"VERIF_SEED": str(sd), "VERIF_SLICE": str(sd % 1000)}, timeout=1800)
-            if rc != 0:
-                raise ToolError("generator %s failed: %s" % (j["family"], o[-800:]))
-            return (out, j)
-
-        with cf.ThreadPoolExecutor(JOBS) as ex:
-            slices = list(ex.map(gen, gens))
-        # C11-style merged traces: interleave the groups of two configurations (text only)
-        for m in plan.get("merge", []):
-            merged = []
-            by = collections.defaultdict(dict)
-            for (f, j) in slices:
-                if j["family"] == m["family"]:
-                    by[os.path.basename(f).rsplit("_", 1)[1]][j["variant"]] = f
-            for sl, d in by.items():
-                out = os.path.join(wd, "traces", "%s_merged_%s" % (m["family"], sl))
-                merge_groups([d[v] for v in m["variants"]], out)
-                merged.append((out, {"family": m["family"] + "_merged", "variant": "+".join(m["variants"])}))
-            slices = [(f, j) for (f, j) in slices if j["family"] != m["family"]] + merged
+        slices = record(plan, tier, seed, bins, wd, 1, "")
 
     # ---------------- validate every slice against the specification (impl -> spec)
-    results = []
-    with cf.ThreadPoolExecutor(JOBS) as ex:
-        futs = {ex.submit(validate_trace, f, wd, plan.get("trace_timeout", 1500)): (f, j) for (f, j) in slices}
-        for fu in cf.as_completed(futs):
-            f, j = futs[fu]
-            results.append((f, j, fu.result()))
+    results = validate_all(slices, wd, plan)
+    drift = collections.Counter()
+    for (_, _, res) in results:
+        for d in res.get("drift", []):
+            drift["%s/%s" % (d["op"], d["sp"])] += 1
+    escalated = False
+    if drift and not replay and not any(d["prop"] in plan.get("props", [prop]) for (_, _, r) in results for d in r["devs"]):
+        # the implementation no longer reproduces the transcription's bits and nothing has been found yet:
+        # spend more samples on the same generators before concluding
+        escalated = True
+        results += validate_all(record(plan, tier, seed, bins, wd, 6, "esc_"), wd, plan)
 
     # ---------------- exhaustive small-format models (transcription -> spec)
     mc_results = []
@@ -354,6 +375,8 @@ def run(prop, plan, tier, seed, replay, wd, known, t0):
         "traces_validated_against_impl": len(results),
         "skipped_out_of_domain": skipped,
         "undecided": dict(undecided),
+        "model_drift": dict(drift),
+        "escalated_after_drift": escalated,
         "models": mc_results,
         "exhaustive": False,
         "deviations_own": len(own),
@@ -378,6 +401,10 @@ def run(prop, plan, tier, seed, replay, wd, known, t0):
         json.dump(ev, open(os.path.join(VERIF, "evidence", "%s.json" % prop), "w"), indent=1)
     for ln in known_lines:
         print(ln)
+    if drift:
+        print("MODEL-DRIFT: the implementation's words differ from the transcription spec/AlgArith.tla on %d events (%s); "
+              "not a violation by itself, the small-format results no longer describe this code%s" % (
+                  sum(drift.values()), dict(drift.most_common(6)), "; sampling was escalated x6" if escalated else ""))
     if other:
         c = collections.Counter("%s:%s:%s" % (d["prop"], d["op"], d["clause"]) for d in other)
         print("NOTE: deviations attributed to other properties (reported by their own checks): %s" % dict(c))
